@@ -137,11 +137,19 @@ def check(world, spec, outcome) -> None:
     term = None
     released = False
     task_done = None
+    # root cause attribute: the idle release aborted the control loop after it had published the terminal event, i.e. while
+    # the terminal status write was still being retried (the only await between that publication and the loop's exit)
+    released_while_finalizing = False
+    exited_after_term = False
     for seq, t, kind, f in recs:
         if kind == "publish" and f.get("run") == rid and f["ev"] in ("StopEvent", "Stop1", "WorkflowFailedEvent", "WorkflowCancelledEvent", "WorkflowTimedOutEvent") and term is None:
             term = f["ev"]
         elif kind == "runner-exit" and term is None:
             released = True
+        elif kind == "runner-exit":
+            exited_after_term = True
+        elif kind == "abort" and f.get("live") and term is not None and not exited_after_term:
+            released_while_finalizing = True
         elif kind == "run-task-done" and f["run"] == rid:
             task_done = f
     fault_fired = any(k.startswith("store-write-error") for k in SEAM.faults_fired)
@@ -168,6 +176,8 @@ def check(world, spec, outcome) -> None:
     world.probe("outcome:" + want)
     if released:
         world.probe("idle-released-before-end")
+    if released_while_finalizing:
+        world.probe("idle-release-aborted-terminal-status-write")
     mode = world._fault_mode
     engine_side = task_done.get("exc") if ended_by_error else None
     if mode == "persistent" and fault_fired:
@@ -177,9 +187,11 @@ def check(world, spec, outcome) -> None:
         world.violate("C15.status-mismatch", f"run ended ({term}) but no handler row is stored", outcome=want, fault=fault_fired)
     elif final[0] == "running":
         world.violate("C15.stuck-running", f"run ended ({term or 'engine error ' + str(engine_side)}) but the stored handler is still running at quiescence",
-                      outcome=want, fault=fault_fired, engine_side=engine_side or "none", backend=world.backend)
+                      outcome=want, fault=fault_fired, engine_side=engine_side or "none", backend=world.backend,
+                      released_while_finalizing=released_while_finalizing)
     elif final[0] != want:
-        world.violate("C15.status-mismatch", f"run ended with {term} but stored status is {final[0]}", outcome=want, got=final[0], fault=fault_fired)
+        world.violate("C15.status-mismatch", f"run ended with {term} but stored status is {final[0]}", outcome=want, got=final[0], fault=fault_fired,
+                      released_while_finalizing=released_while_finalizing)
     else:
         if want == "completed" and not final[2]:
             world.violate("C15.status-mismatch", "completed handler has no stored result", outcome=want, got="no-result", fault=fault_fired)
